@@ -50,6 +50,16 @@ func genPool(t *rapid.T, prop string) *PoolProg {
 		p.Iter = rapid.IntRange(5, 20).Draw(t, "iter7")
 		p.DEPct = rapid.SampledFrom([]int{0, 60, 100}).Draw(t, "depct")
 		return p
+	case "C20":
+		p.Min = rapid.IntRange(1, 3).Draw(t, "min")
+		p.Max = p.Min + rapid.IntRange(0, 1).Draw(t, "maxd")
+		p.WM = rapid.SampledFrom([]int{1, 100}).Draw(t, "wm")
+		p.UdMs, p.UdCalls = 1, 1
+		p.DEPct = rapid.SampledFrom([]int{60, 100}).Draw(t, "depct")
+		p.Resolves = rapid.IntRange(5, 60).Draw(t, "resolves")
+		p.Flaps = rapid.IntRange(0, 4).Draw(t, "flaps")
+		p.Iter = rapid.IntRange(5, 20).Draw(t, "iter20")
+		return p
 	case "C06":
 		p.Min = rapid.IntRange(1, 3).Draw(t, "min")
 		p.Max = p.Min + rapid.IntRange(0, 2).Draw(t, "maxd")
@@ -202,6 +212,7 @@ func runConc(t *testing.T, prop string, race bool) {
 
 func TestC10(t *testing.T)     { runConc(t, "C10", true) }
 func TestConcC02(t *testing.T) { runConc(t, "C02", false) }
+func TestConcC20(t *testing.T) { runConc(t, "C20", false) }
 func TestConcC15(t *testing.T) { runConc(t, "C15", false) }
 func TestConcC16(t *testing.T) { runConc(t, "C16", false) }
 func TestConcC03(t *testing.T) { runConc(t, "C03", false) }
